@@ -103,6 +103,13 @@ def scenarios():
     svc = G.add_service(fd, "Lab")
     G.add_method(svc, "GetShelf", ".acme.lab.v1.Req", ".acme.lab.v1.Shelf", http=("get", "/v1/{name=shelves/*}"))
     G.add_method(svc, "ListShelves", ".acme.lab.v1.Req", ".acme.lab.v1.Answer", http=("get", "/v1/{name=lists/*}"))
+    # a request type of ANOTHER package (not generated): its comment still reaches the docstring of the method that takes it
+    shared = G.new_file("acme/shared/v1/shared.proto", "acme.shared.v1")
+    G.add_message(shared, "SharedReq", [G.F("name", 1, T.TYPE_STRING)])
+    SHARED_COMMENT = " Names the thing to be shared, with the audience it is meant for.\n"
+    shared.source_code_info.location.add(path=[4, 0], leading_comments=SHARED_COMMENT)
+    fd.dependency.append("acme/shared/v1/shared.proto")
+    G.add_method(svc, "ShareIt", ".acme.shared.v1.SharedReq", ".acme.lab.v1.Answer", http=("post", "/v1/{name=shared/*}:share"), body="*")
     for key, (path, where, text) in COMMENTS.items():
         loc = fd.source_code_info.location.add(path=list(path))
         if where == "leading":
@@ -113,7 +120,7 @@ def scenarios():
             loc.leading_detached_comments.append(text)
     failures, cases = [], 0
     try:
-        api, res = G.generate([fd], "autogen-snippets=false")
+        api, res = G.generate([shared, fd], "autogen-snippets=false", to_generate=["acme/lab/v1/lab.proto"])
     except Exception as e:      # noqa
         return {"cases": 1, "failures": [{"what": "generation failed", "error": repr(e)[:300]}]}
     by = {f.name: f.content for f in res.file}
@@ -155,4 +162,10 @@ def scenarios():
         if not _contains_in_order(doc, _words(COMMENTS[key][2])):
             failures.append({"what": f"the words of a {where} comment do not all reach the docstring, in order", "element": f"{cname}.{meth}" if meth else cname, "file": fname,
                              "comment": COMMENTS[key][2].strip()[:120], "docstring_head": " ".join(doc.split())[:160]})
+    for fname, cname in (("acme/lab_v1/services/lab/client.py", "LabClient"), ("acme/lab_v1/services/lab/async_client.py", "LabAsyncClient")):
+        cases += 1
+        doc = cls_doc(fname, cname, "share_it")
+        if doc is not None and not _contains_in_order(doc, _words(SHARED_COMMENT)):
+            failures.append({"what": "the comment of a request type from another package does not reach the method's docstring", "element": f"{cname}.share_it",
+                             "comment": SHARED_COMMENT.strip(), "docstring_head": " ".join(doc.split())[:200]})
     return {"cases": cases, "failures": failures}
